@@ -27,7 +27,7 @@ Effective(present) == LET c == present \cup {"builtin"} IN CHOOSE s \in c : \A t
 \* the options, kinds and commands of replicat (cfg files cannot hold functions: Options <- OptionsDef, ...)
 OptionsDef == {"repository", "password", "concurrent", "hide-progress", "cache-directory", "key-file", "log-level",
                "s3c.key-id", "s3c.region", "s3c.scheme", "pc.token", "pc.port", "pc.secure",
-               "s3.key-id", "s3.region", "b2.key-id"}      \* s3 is a SUBCLASS of the s3c backend class: its environment variables are S3_..., not S3C_...
+               "s3.key-id", "s3.region", "b2.key-id", "b2.application-key"}      \* s3 is a SUBCLASS of the s3c backend class: its environment variables are S3_..., not S3C_...
 KindOfDef == [o \in OptionsDef |->
                CASE o = "repository" -> "repository" [] o = "password" -> "password" [] o = "log-level" -> "fileonly"
                  [] o \in {"concurrent", "hide-progress", "cache-directory", "key-file"} -> "common"
